@@ -18,9 +18,6 @@ User conditions and the built-in `FuncDependentType` checks are a parameter of t
 set_option autoImplicit false
 namespace Ovld
 
-inductive Tri | yes | no | raises
-deriving DecidableEq, Repr, Inhabited
-
 inductive VKind | plain | seq | sized
 deriving DecidableEq, Repr, Inhabited
 
@@ -43,7 +40,7 @@ structure DWorld where
   /-- `T.check(value)` of a `FuncDependentType` (user conditions and built-in value types) -/
   chk : Nat → List (Option Nat) → Nat → Tri
 
-def Tri.ofBool (b : Bool) : Tri := if b then .yes else .no
+def Cfg.dworld (cfg : Cfg) : DWorld := { H := cfg.H, metaOf := cfg.metaOf, chk := cfg.chk }
 
 section
 variable (W : DWorld)
